@@ -101,7 +101,7 @@ impl Run {
             .ok()
             .and_then(|s| s.parse::<f64>().ok())
             .unwrap_or(match tier {
-                Tier::Quick => 45.0,
+                Tier::Quick => 100.0,
                 Tier::Thorough => 900.0,
             });
         Run {
